@@ -1168,6 +1168,15 @@ func (c *Conn) verifyServerCertificate(certificates [][]byte) error {
 				// ECH was rejected: the server authenticates as the public name that
 				// was sent in the outer ClientHello, not as Config.ServerName.
 				opts.DNSName = c.serverName
+				if opts.DNSName == "" {
+					// no server_name went out (e.g. RemoveSNIExtension): the name to
+					// authenticate is still the public name of the config that was used
+					if echConfigs, err := parseECHConfigList(c.config.EncryptedClientHelloConfigList); err == nil {
+						if echConfig := pickECHConfig(echConfigs); echConfig != nil {
+							opts.DNSName = string(echConfig.PublicName)
+						}
+					}
+				}
 			}
 			// [UTLS SECTION END]
 
